@@ -134,7 +134,7 @@ theorem local_rt (inflate : Nat → Bytes → Option (Nat × Bytes)) (m : ZipMem
   obtain ⟨hn, hc, hd, hft, hfd, hext⟩ := ok
   have hcrc : (crc32 m.data).toNat < 2 ^ 32 := (crc32 m.data).isLt
   have fl := flag1_lt m.lang
-  unfold zipLocal
+  unfold zipLocal zipBody
   rw [hfile]
   unfold writeZipLocal localHdr
   simp only [List.append_assoc, Nat.not_lt.mpr hoff, if_false]
